@@ -56,7 +56,10 @@ ASSUMPTIONS = [
     "a seconds field of exactly 60.00 that still denotes the right angle is counted, not failed, while C17's fix is absent",
 ]
 TRUSTED = ["Gen.C03.istart / Gen.C03.groupSize regenerated from source_finder.priorized_fit_islands by py2lean.py (int mode) "
-           "through the ast slice in translator/targets/C03.py"]
+           "through the ast slice in translator/targets/C03.py",
+           "Gen.C03.paUp*/paDown*/fix*/raWrap*/intFluxG/beamAreaG and the comparison-kind literals regenerated from pa_limit, fix_shape, "
+           "result_to_components and WCSHelper.get_beamarea_pix through the ast slices in translator/targets/C03.py; the loops and "
+           "branches are re-assembled in Model/C03Gen.lean and run by the driver (palimit / fixshape / rawrap ops, bit-exact)"]
 PARTIAL = [
     "catalogue_consistent_partial: 'fitting completes on every valid image' (optimiser termination), b > 0, |dec| <= 90 "
     "(third-party WCS), strings agree with decimals (C17), int_flux within 1 % on a non-uniform grid, IEEE rounding of the "
@@ -1313,6 +1316,16 @@ def range_helpers(ctx):
             ctx.fail('spec', case, f"pa_limit({x!r}) = {got!r} is not in (-90, 90] / not congruent mod 180",
                      dict(site='pa_limit', clause='range'))
         ctx.case(case, nontrivial_key=('pa', x) if abs(x) > 90 else None)
+
+    ras = [-0.0, 0.0, -1e-300, -360.0, 359.99999999999994, -1e-17] + [rng.uniform(-360, 360) for _ in range(100)]
+    outs = ctx.driver.batch([f"rawrap {F(x)}" for x in ras])
+    for x, o in zip(ras, outs):
+        got = x + 360 if x < 0 else x       # the statement in result_to_components (sliced by the translator)
+        case = dict(scenario='ra_wrap', ra=x)
+        if F(got) != o:
+            ctx.fail('corr', case, f"ra wrap of {x!r}: python semantics {got!r}, regenerated model {common.h2f(o)!r}",
+                     dict(site='ra_wrap', what='value'))
+        ctx.case(case, nontrivial_key=('ra', x) if x < 0 else None)
 
     class S:
         pass
